@@ -171,12 +171,12 @@ func (m *sizingMachine) Exec(op Tok) (opOut Tok, obs Tok) {
 			return opOut, TErr(errGeneric)
 		}
 		for i := uint(0); i < n; i++ {
-			f.Insert([]byte(fmt.Sprintf("in-%d-%d", a[3].U(), i)))
+			f.Insert(shapedKey(a[3].U(), int(i), "in-"))
 		}
 		q := 20000
 		fp := 0
 		for i := 0; i < q; i++ {
-			if f.Lookup([]byte(fmt.Sprintf("out-%d-%d", a[3].U(), i))) {
+			if f.Lookup(shapedKey(a[3].U(), i, "out-")) {
 				fp++
 			}
 		}
@@ -185,13 +185,13 @@ func (m *sizingMachine) Exec(op Tok) (opOut Tok, obs Tok) {
 		size, b := a[1].U(), a[2].U()
 		e := float64(a[3].U()) / 1e6
 		f := gx.NewCuckooFilterWithErrorRate(size, b, 500, e)
-		cs, cb, _, _ := gx.VerifCuckooParams(f)
+		cs, cb, fpl, _ := gx.VerifCuckooParams(f)
 		load := int(float64(cs*cb) * 0.9)
 		ins := 0
 		for i := 0; i < load; i++ {
 			func() {
 				defer func() { recover() }()
-				if f.Insert([]byte(fmt.Sprintf("in-%d-%d", a[4].U(), i)), false) {
+				if f.Insert(shapedKey(a[4].U(), i, "in-"), false) {
 					ins++
 				}
 			}()
@@ -199,11 +199,11 @@ func (m *sizingMachine) Exec(op Tok) (opOut Tok, obs Tok) {
 		q := 20000
 		fp := 0
 		for i := 0; i < q; i++ {
-			if f.Lookup([]byte(fmt.Sprintf("out-%d-%d", a[4].U(), i))) {
+			if f.Lookup(shapedKey(a[4].U(), i, "out-")) {
 				fp++
 			}
 		}
-		return opOut, TL(TNi(fp), TNi(q), TNi(ins))
+		return opOut, TL(TNi(fp), TNi(q), TNi(ins), TNu(fpl), TNu(cb))
 	case 8:
 		eps := float64(a[1].U()) / 1e6
 		delta := float64(a[2].U()) / 1e6
@@ -215,22 +215,87 @@ func (m *sizingMachine) Exec(op Tok) (opOut Tok, obs Tok) {
 		total := uint64(0)
 		truth := map[string]uint64{}
 		for i := 0; i < n; i++ {
-			k := fmt.Sprintf("k-%d-%d", a[4].U(), i%(n/4+1))
+			k := string(shapedKey(a[4].U(), i%(n/4+1), "k-"))
 			c := uint64(1 + i%5)
 			s.Update([]byte(k), c)
 			truth[k] += c
 			total += c
 		}
+		// eight heavy hitters, each well above eps*N: the (eps, delta) guarantee is about the light
+		// keys that share cells with them, and needs the rows to hash independently
+		heavy := map[string]bool{}
+		hc := total/4 + 1
+		for j := 0; j < 8; j++ {
+			k := string(shapedKey(a[4].U(), j, "heavy-"))
+			s.Update([]byte(k), hc)
+			heavy[k] = true
+			truth[k] += hc
+			total += hc
+		}
 		bad, q := 0, 0
 		for k, tc := range truth {
+			if heavy[k] {
+				continue
+			}
 			q++
 			if float64(s.Count([]byte(k))-tc) > eps*float64(total) {
 				bad++
 			}
 		}
 		return opOut, TL(TNi(bad), TNi(q))
+	case 9:
+		// fingerprint-hash quality on structured keys: 3000 fixed-width identifiers per width 20..35
+		// (varying digits last). Two different keys with the same 64-bit hash are a certain false
+		// positive in an almost empty filter, whatever the error budget.
+		coll := 0
+		var exA, exB []byte
+		for w := 20; w < 36; w++ {
+			seen := map[uint64][]byte{}
+			for i := 0; i < 3000; i++ {
+				num := fmt.Sprint(i)
+				k := fmt.Sprintf("id-%d-", a[1].U()%1000)
+				for len(k)+len(num) < w {
+					k += "0"
+				}
+				key := []byte(k + num)
+				h := gx.VerifMurmur(key)
+				if prev, ok := seen[h]; ok {
+					coll++
+					if exA == nil {
+						exA, exB = prev, key
+					}
+				} else {
+					seen[h] = key
+				}
+			}
+		}
+		fp := 0
+		if exA != nil {
+			f := gx.NewCuckooFilterWithErrorRate(1000, 4, 500, 0.01)
+			func() {
+				defer func() { recover() }()
+				f.Insert(exA, false)
+				if f.Lookup(exB) {
+					fp = 1
+				}
+			}()
+		}
+		return opOut, TL(TNi(coll), TNi(16*3000), TBs(exA), TBs(exB), TNi(fp))
 	}
 	return opOut, TL(TNu(9))
+}
+
+// shapedKey builds the fixed-width identifier <prefix><zero padding><i>, the width cycling through
+// 20..35 bytes with i, so that every rate test uses structured keys of every tail length of the
+// block hashes (length mod 16) whose varying digits are the LAST bytes.
+func shapedKey(seed uint64, i int, prefix string) []byte {
+	w := 20 + int((seed+uint64(i))%16)
+	num := fmt.Sprint(i)
+	k := fmt.Sprintf("%s%d-", prefix, seed%1000)
+	for len(k)+len(num) < w {
+		k += "0"
+	}
+	return []byte(k + num)
 }
 
 func bloomBitset(size uint) gx.IBitSet {
@@ -261,13 +326,14 @@ func genC15stat(g *Gen, tier string) *Case {
 	ops := []Tok{
 		TL(TNi(6), TNi(g.Pick(1000, 2000, 5000)), TNi(g.Pick(100, 1000, 10000, 100000, 300000, 500000)), TNu(seed)),
 		TL(TNi(7), TNi(g.Pick(20, 100, 1000, 4000)), TNi(g.Pick(2, 4)), TNi(g.Pick(1000, 10000, 100000)), TNu(seed)),
-		TL(TNi(8), TNi(g.Pick(10000, 50000, 200000)), TNi(g.Pick(10000, 100000, 500000)), TNi(g.Pick(500, 2000)), TNu(seed)),
+		TL(TNi(8), TNi(g.Pick(10000, 50000, 200000)), TNi(g.Pick(100, 1000, 10000, 100000, 500000)), TNi(g.Pick(2000, 8000)), TNu(seed)),
+		TL(TNi(9), TNu(seed)),
 	}
 	return &Case{Ops: ops}
 }
 
 func sizingOpName(op Tok) string {
-	names := []string{"BloomSizing", "CuckooSizing", "CMSSizing", "BloomProbes", "CMSRows", "HLLIndex", "BloomFPR", "CuckooFPR", "CMSOverestimate"}
+	names := []string{"BloomSizing", "CuckooSizing", "CMSSizing", "BloomProbes", "CMSRows", "HLLIndex", "BloomFPR", "CuckooFPR", "CMSOverestimate", "CuckooHashCollisions"}
 	k := op.L[0].I()
 	if k < len(names) {
 		return names[k]
@@ -322,8 +388,23 @@ func monitorSizing(ops, obs []Tok) []MonViolation {
 		case 7:
 			e := float64(a[3].U()) / 1e6
 			if aboveBudget(o.L[0].I(), o.L[1].I(), e) {
-				out = append(out, MonViolation{"stat/cuckoo/false-positive-rate-above-budget",
+				// the recorded defect (fingerprints are fpl DECIMAL digits, leading digit skewed) explains
+				// rates up to about 2*bucketSize / 10^(fpl-1); anything beyond that is something else
+				sig := "stat/cuckoo/false-positive-rate-above-budget"
+				if len(o.L) >= 5 {
+					asBuilt := 2 * float64(o.L[4].U()) / math.Pow(10, float64(o.L[3].U())-1)
+					if asBuilt < 1 && aboveBudget(o.L[0].I(), o.L[1].I(), asBuilt/1.5) {
+						sig = "stat/cuckoo/false-positive-rate-beyond-decimal-fingerprints"
+					}
+				}
+				out = append(out, MonViolation{sig,
 					fmt.Sprintf("size=%d b=%d err=%g: %d false positives in %d fresh lookups at 90%% load", a[1].U(), a[2].U(), e, o.L[0].I(), o.L[1].I()), step})
+			}
+		case 9:
+			if o.L[0].U() > 0 {
+				out = append(out, MonViolation{"stat/cuckoo/hash-collisions-on-structured-keys",
+					fmt.Sprintf("%d of %d fixed-width identifiers share their 64-bit fingerprint hash with another one, e.g. %q and %q; Insert of the first makes Lookup of the second true in an empty filter built for error rate 0.01: %v",
+						o.L[0].U(), o.L[1].U(), o.L[2].B, o.L[3].B, o.L[4].U() == 1), step})
 			}
 		case 8:
 			delta := float64(a[2].U()) / 1e6
